@@ -413,18 +413,19 @@ def _fit_peak_single_model(
     fit_requirements: FitRequirements,
 ) -> FitResult:
     model = background + peak
+    if len(data) < len(model.param_names):
+        # Not enough points to fit all parameters.
+        # Check this first because the parameter guesses below need some data.
+        return FitResult.for_too_narrow_window(
+            peak=peak, background=background, window=window
+        )
+
     bkg_p0 = _guess_background(data, model=background, fit_parameters=fit_parameters)
     p0 = {
         **bkg_p0,
         **_guess_peak(data, model=peak, fit_parameters=fit_parameters),
     }
     bounds = background.param_bounds | _peak_param_bounds(peak)
-
-    if len(data) < len(p0):
-        # not enough points to fit all parameters
-        return FitResult.for_too_narrow_window(
-            peak=peak, background=background, window=window
-        )
 
     bkg_goodness_stats = _fit_background(background, data, bkg_p0)
     try:
@@ -614,7 +615,8 @@ def _guess_background(
     data: sc.DataArray, model: Model, fit_parameters: FitParameters
 ) -> dict[str, sc.Variable]:
     # 2* because the range is split between beginning and end of window
-    n = int(len(data) * fit_parameters.guess_background_fraction / 2)
+    # At least 1 because data[-0:] is all of data.
+    n = max(int(len(data) * fit_parameters.guess_background_fraction / 2), 1)
     tails = sc.concat([data[:n], data[-n:]], dim=data.dim)
     return model.guess(tails)
 
@@ -623,7 +625,7 @@ def _guess_peak(
     data: sc.DataArray, model: Model, fit_parameters: FitParameters
 ) -> dict[str, sc.Variable]:
     # 2* to match the range in _guess_background
-    n = int(len(data) * fit_parameters.guess_background_fraction / 2)
+    n = max(int(len(data) * fit_parameters.guess_background_fraction / 2), 1)
     bulk = data[n:-n]
     return model.guess(bulk)
 
